@@ -301,6 +301,35 @@ def run(ck, only=None):
             if "panic" in sts or len(set(sts)) != 1:
                 ck.violation(f"threads header={os.path.basename(h)} statuses={sts}", dict(det, why=f"three generations of one header, each on a thread of its own, ended {sts}: {[str(o.get('panic') or o.get('err'))[:120] for o in r['outs']]}"))
         ck.extra["second_thread_histories"] = len(info)
+        # generations of DIFFERENT inputs one after the other in one process: what an earlier one found out about the system
+        # (include directories, the language) must not be applied to a later one
+        sysd = os.path.join(wd, "sys")
+        os.makedirs(sysd, exist_ok=True)
+        files = {"sys_c.h": "#include <stdlib.h>\n#include <stdint.h>\nstruct SC { size_t n; uint32_t u; };\n",
+                 "sys_cpp.hpp": "#include <cstdlib>\n#include <cmath>\nstruct SP { std::size_t n; };\n",
+                 "plain_c.h": "struct PC { int a; };\n", "plain_cpp.hpp": "namespace n { struct PP { int a; }; }\n"}
+        for n_, t in files.items():
+            open(os.path.join(sysd, n_), "w").write(t)
+        names_ = sorted(files)
+        import itertools as _it
+        jobs2 = []
+        for seq in list(_it.permutations(names_, 2)) + list(_it.permutations(names_, 3)):
+            if only and only.get("seq") != list(seq):
+                continue
+            for thr in (False, True):
+                jobs2.append({"id": "seq|" + ",".join(seq) + f"|{int(thr)}", "mode": "history", "fresh": True, "thread_per_generation": thr, "timeout": 120,
+                              "jobs": [{"args": [os.path.join(sysd, h), "--allowlist-file", ".*/sys/.*"]} for h in seq]})
+        res2 = common.run_jobs(jobs2, wd, timeout=120)
+        for jid, r in res2.items():
+            _, seqs, thr = jid.split("|")
+            ck.count()
+            ck.nontriv(jid)
+            det = {"kind": "threads", "seq": seqs.split(",")}
+            sts = [o.get("status") for o in r.get("outs", [])] if r["status"] == "ok" else [r["status"]]
+            if any(st != "ok" for st in sts):
+                why = [str(o.get("err") or o.get("panic"))[:160] for o in r.get("outs", []) if o.get("status") != "ok"]
+                ck.violation(f"sequence inputs={seqs} thread-per-generation={thr} statuses={sts}", dict(det, why=f"every one of these headers is accepted on its own; in this order one generation ended {sts}: {why[:1]}"))
+        ck.extra["input_sequences_in_one_process"] = len(jobs2)
 
     # ---- (v) calling-convention and type attributes in every declarator position -------
     if not only or only.get("kind") == "attr":
